@@ -74,6 +74,8 @@ class Subj(Renderable):
         rd = super()._get_render_data_(iteration=iteration)
         tok = next(_tokens)
         rd[Subj].update(token=tok, fin=0, pos=0)
+        if hold_refs:
+            held.append(rd)
         created.append(tok)
         return rd
 
@@ -128,6 +130,8 @@ class _SubjData(DataNamespace, render_cls=Subj):
 
 
 _tokens = itertools.count(1)
+hold_refs = False
+held = []
 live_tokens = {}
 created = []
 finalized = []
